@@ -6,7 +6,7 @@ import warnings
 from ..core import Acc, Violation, guarded, run_hypothesis, shard_seed
 
 PROPERTY = 'C18'
-RULE = ('version strings = 1-3 numeric groups over {0,1,2,3,10} x suffix in {"",a,b,rc1,-x,A," "," a",rc01,rc10} (1,550 strings, '
+RULE = ('version strings = 1-3 numeric groups over {0,1,2,3,10} x suffix in {"",a,b,rc1,-x,A," "," a",rc01,rc10,rc2,rc1a} (1,860 strings, '
         'enumerated) plus Hypothesis strings matching the constructor regex (no newline in suffix); every ordered pair '
         'is checked for trichotomy, agreement of the six operators with an independent reference key, string operands '
         'on either side, hash/set/dict consistency, nearest(); triples for transitivity. Non-trivial = the two strings '
@@ -18,7 +18,7 @@ FEATURES = {'version.hash': 'equal versions with different zero padding hash dif
 EXHAUSTIVE_CLAIM = True
 
 GROUPS = ['0', '1', '2', '3', '10']
-SUFFIXES = ['', 'a', 'b', 'rc1', '-x', 'A', ' ', ' a', 'rc01', 'rc10']
+SUFFIXES = ['', 'a', 'b', 'rc1', '-x', 'A', ' ', ' a', 'rc01', 'rc10', 'rc2', 'rc1a']
 
 
 def universe():
@@ -52,6 +52,18 @@ def nontrivial(a, b):
         return False
     ma, mb = _RE.match(a), _RE.match(b)
     return bool(ma.group(2) or mb.group(2)) or ma.group(1).count('.') != mb.group(1).count('.')
+
+
+_OFFICIAL = []
+
+
+def official():
+    """the official versions as the package lists them *before* the first look-up of this process (a look-up that
+    enlarges the table must not thereby make its own answers official)"""
+    if not _OFFICIAL:
+        from hszinc.version import OFFICIAL_VERSIONS
+        _OFFICIAL.extend(sorted(str(o) for o in OFFICIAL_VERSIONS))
+    return list(_OFFICIAL)
 
 
 def _V():
@@ -95,13 +107,12 @@ def check_pair(a, b, excl=frozenset()):
                 if guarded('grammar-cache', case, t.__getitem__, va) is not guarded('grammar-cache', case, t.__getitem__, vb):
                     raise Violation('grammar-cache', case, '%s differs for equal versions' % tbl)
     # nearest: official, equal if one exists, monotone
-    from hszinc.version import OFFICIAL_VERSIONS
+    offs = official()
     with warnings.catch_warnings():
         warnings.simplefilter('ignore')
         na = guarded('nearest-raises', case, Version.nearest, va)
         nb = guarded('nearest-raises', case, Version.nearest, vb)
         ns = guarded('nearest-raises', case, Version.nearest, a)
-    offs = sorted(str(o) for o in OFFICIAL_VERSIONS)
     if not any(ref_cmp(str(na), o) == 0 for o in offs):
         raise Violation('nearest-official', case, 'nearest(%s)=%s not official' % (a, na))
     if ref_cmp(str(ns), str(na)) != 0:
